@@ -480,3 +480,236 @@ class Gen:
         self.fill()
         separate_label_from_braces(prog)
         return prog
+
+
+# ------------------------------------------------------------------ generator for C07 (constructs and their expansion)
+
+def import_(file, as_=None, params=None):
+    return {"k": "import", "file": file, "sid": "", "hasAs": as_ is not None, "as": as_ or "", "hasParams": params is not None, "params": params or []}
+
+
+_render_old = render
+
+
+def render(prog, indent=0, out=None, pos=None):          # extends the renderer with imports
+    top = out is None
+    if top:
+        out = []
+    pad = "  " * indent
+    for st in prog:
+        if st["k"] == "import":
+            st["line"] = len(out) + 1
+            st["col"] = len(pad) + 1
+            s = pad + ".import *" + (" as " + st["as"] if st["hasAs"] else "") + ' from "%s"' % st["file"]
+            if st["hasParams"]:
+                out.append(s + " {")
+                render(st["params"], indent + 1, out)
+                out.append(pad + "}")
+            else:
+                out.append(s)
+        else:
+            _render_one(st, indent, out)
+    if top:
+        return "\n".join(out) + "\n"
+
+
+def _render_one(st, indent, out):
+    # render a single non-import statement with the base renderer, recursing through this module's render for bodies
+    k = st["k"]
+    pad = "  " * indent
+    if k in ("insn", "data", "setpc", "align", "const", "var", "defseg", "macrocall") or (k == "label" and not st["hasBody"]) or (k == "useseg" and not st["hasBody"]):
+        _render_old([st], indent, out)
+        return
+    st["line"] = len(out) + 1
+    st["col"] = len(pad) + 1
+    if k == "label":
+        out.append(pad + st["name"] + ": {"); render(st["body"], indent + 1, out); out.append(pad + "}")
+    elif k == "braces":
+        out.append(pad + "{"); render(st["body"], indent + 1, out); out.append(pad + "}")
+    elif k == "useseg":
+        out.append(pad + '.segment "%s" {' % st["name"]); render(st["body"], indent + 1, out); out.append(pad + "}")
+    elif k == "if":
+        out.append(pad + ".if " + render_expr(st["e"]) + " {"); render(st["then"], indent + 1, out)
+        if st["hasElse"]:
+            out.append(pad + "} else {"); render(st["else"], indent + 1, out)
+        out.append(pad + "}")
+    elif k == "loop":
+        out.append(pad + ".loop " + render_expr(st["e"]) + " {"); render(st["body"], indent + 1, out); out.append(pad + "}")
+    elif k == "macrodef":
+        out.append(pad + ".macro %s(%s) {" % (st["name"], ", ".join(st["params"]))); render(st["body"], indent + 1, out); out.append(pad + "}")
+    else:
+        raise ValueError(k)
+
+
+_tla_ready_old = tla_ready
+
+
+def tla_ready(prog):
+    out = []
+    for st in prog:
+        if st["k"] == "import":
+            out.append({"k": "import", "sid": st.get("sid") or "", "file": st["file"], "hasAs": st["hasAs"], "as": st["as"],
+                        "hasParams": st["hasParams"], "params": tla_ready(st["params"])})
+        else:
+            c = _tla_ready_old([st])[0]
+            for key in ("body", "then", "else"):
+                if key in c and isinstance(st.get(key), list):
+                    c[key] = tla_ready(st[key])
+            out.append(c)
+    return out
+
+
+_anon_old = anon_scopes_postorder
+
+
+def anon_scopes_postorder(prog, acc=None):
+    if acc is None:
+        acc = []
+    for st in prog:
+        k = st["k"]
+        if k == "label" and st["hasBody"]:
+            anon_scopes_postorder(st["body"], acc)
+        elif k in ("braces", "loop"):
+            anon_scopes_postorder(st["body"], acc)
+            acc.append(st)
+        elif k == "useseg" and st["hasBody"]:
+            anon_scopes_postorder(st["body"], acc)
+        elif k == "if":
+            anon_scopes_postorder(st["then"], acc)
+            anon_scopes_postorder(st["else"], acc)
+        elif k == "macrodef":
+            anon_scopes_postorder(st["body"], acc)
+        elif k == "import":
+            anon_scopes_postorder(st["params"], acc)
+            acc.append(st)
+    return acc
+
+
+def from_tla(prog):
+    """Statements coming back from TLC (ExpandTrace) -> the Python AST shape (adds defaults the renderer wants)."""
+    out = []
+    for st in prog:
+        st = dict(st)
+        for key in ("body", "then", "else", "params"):
+            if key in st and isinstance(st[key], list) and key != "params" or (key == "params" and st.get("k") == "import"):
+                st[key] = from_tla(st[key]) if isinstance(st.get(key), list) else st.get(key)
+        if st["k"] in ("braces", "loop", "import"):
+            st["sid"] = ""
+        out.append(st)
+    return out
+
+
+class Gen7:
+    """Programs built from .loop / .if-else / macros / .const / brace scopes / .import, nested up to `depth`,
+    with bodies of instructions on outer symbols, data on `index`, forward references out of the body and
+    (outside loops) labels inside bodies. All names are unique so that the by-hand expansion is unambiguous."""
+
+    def __init__(self, rnd, depth=3):
+        self.r = rnd
+        self.depth = depth
+        self.n = 0
+        self.macros = []       # (name, nparams)
+        self.consts = []
+        self.outer = ["dat", "tgt"]       # labels defined at top level (dat before the constructs, tgt after)
+        self.imp_names = []
+
+    def fresh(self, p):
+        self.n += 1
+        return "%s%d" % (p, self.n)
+
+    def value(self, in_loop, params):
+        r = self.r
+        opts = [num(r.choice([0, 1, 2, 7, 100]))]
+        if in_loop:
+            opts += [ident(["index"]), binop("*", ident(["index"]), num(2)), binop("+", ident(["index"]), num(1))]
+        if params:
+            opts += [ident([r.choice(params)])]
+        if self.consts:
+            opts += [ident([r.choice(self.consts)])]
+        return r.choice(opts)
+
+    def body(self, d, in_loop, params, allow_label):
+        r = self.r
+        out = []
+        for _ in range(r.randrange(1, 4)):
+            x = r.random()
+            if x < 0.25:
+                out.append(insn(r.choice(["lda", "ldx", "ldy"]), "imm", self.value(in_loop, params)))
+            elif x < 0.40:
+                out.append(insn(r.choice(["sta", "lda", "inc"]), "dir", binop("+", ident([r.choice(self.outer)]), self.value(in_loop, params)) if r.random() < 0.6 else ident([r.choice(self.outer)])))
+            elif x < 0.50:
+                out.append(data(r.choice([1, 2]), [self.value(in_loop, params)]))
+            elif x < 0.58:
+                out.append(insn("jmp", "dir", ident(["tgt"])))
+            elif x < 0.66 and allow_label and not in_loop:
+                nm = self.fresh("l")
+                out += [label(nm), insn("dex"), insn("bne", "dir", ident([nm]))]
+            elif x < 0.9 and d < self.depth:
+                out.append(self.construct(d + 1, in_loop, params, allow_label))
+            else:
+                out.append(insn(r.choice(["nop", "inx", "clc"])))
+        return out
+
+    def cond(self, in_loop, params):
+        r = self.r
+        c = [num(0), num(1), num(5)]
+        if in_loop:
+            c += [binop("==", ident(["index"]), num(1)), binop("-", ident(["index"]), num(1)), binop("%", ident(["index"]), num(2)),
+                  binop("<", ident(["index"]), num(1))]
+        if params:
+            c += [ident([params[0]]), binop(">", ident([params[0]]), num(3))]
+        return r.choice(c)
+
+    def construct(self, d, in_loop, params, allow_label):
+        r = self.r
+        x = r.random()
+        if x < 0.3:
+            return loop(num(r.choice([0, 1, 2, 3])), self.body(d, True, params, False))
+        if x < 0.55:
+            has_else = r.random() < 0.6
+            return if_(self.cond(in_loop, params), self.body(d, in_loop, params, allow_label), self.body(d, in_loop, params, allow_label) if has_else else None)
+        if x < 0.8 and self.macros:
+            nm, k = r.choice(self.macros)
+            return macrocall(nm, [self.value(in_loop, params) for _ in range(k)])
+        b = self.body(d, in_loop, params, allow_label)
+        if not in_loop:      # block symbols: backward to the start, forward to the end of this very block
+            k = r.random()
+            if k < 0.35:
+                b.insert(r.randrange(len(b) + 1), insn(r.choice(["beq", "bcc"]), "dir", ident(["+"])))
+            elif k < 0.6:
+                b.append(insn("bne", "dir", ident(["-"])))
+            elif k < 0.7:
+                b.insert(0, insn("jmp", "dir", ident(["+"])))
+        return braces(b)
+
+    def program(self):
+        r = self.r
+        prog, files = [], {}
+        for _ in range(r.randrange(0, 3)):
+            c = self.fresh("k")
+            prog.append(const(c, num(r.choice([1, 2, 3, 200]))))
+            self.consts.append(c)
+        late_macros = []
+        for _ in range(r.randrange(0, 3)):
+            nm = self.fresh("m")
+            k = r.randrange(0, 3)
+            ps = [self.fresh("p") for _ in range(k)]
+            mbody = self.body(1, False, ps, True)
+            (prog if r.random() < 0.7 else late_macros).append(macrodef(nm, ps, mbody))
+            self.macros.append((nm, k))
+        prog.append(label("dat"))
+        prog.append(data(1, [num(1), num(2)]))
+        if r.random() < 0.35:
+            fn = "inc.asm"
+            inm = self.fresh("i")
+            files[fn] = [label(inm), insn("lda", "imm", num(r.randrange(256))), insn("sta", "dir", ident([inm])), insn("rts")]
+            as_ = "mod" if r.random() < 0.5 else None
+            prog.append(import_(fn, as_))
+            prog.append(insn("jsr", "dir", ident([as_, inm] if as_ else [inm])))
+        for _ in range(r.randrange(2, 6)):
+            prog.append(self.construct(1, False, [], True))
+        prog.append(label("tgt"))
+        prog.append(insn("rts"))
+        prog += late_macros
+        separate_label_from_braces(prog)
+        return prog, files
